@@ -315,7 +315,7 @@ func jsonBases(quick bool) []string {
 			out = append(out, s)
 		}
 	}
-	out = append(out, "{}", `{"a":{}}`, `[{}]`, ` [ 1 , 2 ] `, `{"a":1,"a":2}`, `"\u00e9\n\\\/"`, `-0`, `1E+2`, `0.5e-1`)
+	out = append(out, `{"length":"a"}`, "{}", `{"a":{}}`, `[{}]`, ` [ 1 , 2 ] `, `{"a":1,"a":2}`, `"\u00e9\n\\\/"`, `-0`, `1E+2`, `0.5e-1`)
 	return out
 }
 
